@@ -4,6 +4,7 @@ import SJ.Spec.SchemaExcl
 import SJ.Model.FromValue
 import SJ.Model.Typed
 import SJ.Spec.Ieee
+import SJ.Model.FromValueAp
 /-!
 `c16 <cfg> <schema> <value> <F0|F1> <ext> [<hex of to_string(value)>] => <owned>|<borrowed>|<text>` (outcomes `OK:<tval>` / `ERR` / `PANIC`).
 
@@ -109,6 +110,17 @@ def spec (s : Schema) (v : JV) (floats : Bool) (o b t : Outcome) (hint : String)
       (if TVal.eqv floats x z then [] else ["C16 results differ: owned vs text" ++ hint])
     | _, _, _ => [s!"C16 outcomes split: owned={o.cls} borrowed={b.cls} text={t.cls}" ++ hint]
 
+/-- `arbitrary_precision`, a pair inside the domain of `c16_text_agrees_ap_partial` (outside the statement's exclusions and
+    outside the three open findings `c16ApExcluded`): the executable statement again, worded so that a failure is NOT
+    matched by the signature of a known finding. `floats`: the float hypothesis of the theorem holds of the pair
+    (`apAccurateX`: f64 results must then be EQUAL), or the harness says the f64 leaves are comparable. -/
+def specAp (floats : Bool) (s : Schema) (v : JV) (o b t : Outcome) : List String :=
+  (spec s v floats o b t "").map fun m =>
+    if m.startsWith "C16 panic" then m else "C16 ap-domain (no exclusion of c16_text_agrees_ap_partial applies): " ++ (m.drop 4).toString
+
+/-- the float hypothesis `apAccurate` of `c16_text_agrees_ap_partial` (executable form) -/
+def apDomainFloats (cfg : Cfg) (s : Schema) (v : JV) : Bool := s.allPos (apAccurateX cfg.fr) v
+
 /-- some entry of the ext table has `display == literal` and `ryu != literal` -/
 def displayFormIn (exts : String) : Bool :=
   if exts == "-" then false else
@@ -139,7 +151,10 @@ def c16core (cfgTag se ve flag exts : String) (text : Option String) (impl : Str
         let t := parseOutcome it
         match o, b, t with
         | .bad, _, _ | _, .bad, _ | _, _, .bad => bad "outcome"
-        | _, _, _ => { model := m, specs := spec s v (flag == "F1") o b t (hints cfg v o (displayFormIn exts)) }
+        | _, _, _ =>
+          if cfg.ap && !c16ApExcluded ext s v then
+            { model := m, specs := specAp (apDomainFloats cfg s v || flag == "F1") s v o b t }
+          else { model := m, specs := spec s v (flag == "F1") o b t (hints cfg v o (displayFormIn exts)) }
       | _ => bad "fields"
     | _, _, _ => bad "decode"
 
